@@ -61,7 +61,8 @@ def hexDigitU (n : Nat) : Char :=
 def hex2 (b : Nat) : Str := [hexDigitU (b / 16 % 16), hexDigitU (b % 16)]
 
 /-- `"%02d" % n` -/
-def dec2 (n : Nat) : Str := if n < 10 then '0' :: toDec n else toDec n
+def dec2 (n : Nat) : Str :=
+  if n < 100 then [Nat.digitChar (n / 10), Nat.digitChar (n % 10)] else toDec n
 
 /-- `hexlify(xor(data, key shifted by salt)).upper()` -/
 def xorBody : Nat → Bytes → Str
